@@ -367,7 +367,11 @@ class _VersionIndependentUnmarshaller:
     # Since Python 3.4
     def t_interned(self, save_ref, bytes_for_s=False):
         strsize = unpack("<i", self.fp.read(4))[0]
-        interned = compat_str(self.fp.read(strsize))
+        if self.marshal_version >= 3:
+            # Since 3.4 this is interned text, written like TYPE_UNICODE
+            interned = self.fp.read(strsize).decode("utf-8", "surrogatepass")
+        else:
+            interned = compat_str(self.fp.read(strsize))
         self.internStrings.append(interned)
         return self.r_ref(interned, save_ref)
 
